@@ -284,10 +284,13 @@ pub fn random_topology(r: &mut Prng, v6: bool, o: &TopoOpts) -> Topology {
     Topology {
         hops,
         target: t,
-        tcp: match r.below(if o.allow_silent_target { 5 } else { 4 }) {
+        tcp: match r.below(if o.allow_silent_target { 6 } else { 4 }) {
             0 | 1 => TcpMode::SynAck,
             2 | 3 => TcpMode::Rst,
-            _ => TcpMode::Silent,
+            4 => TcpMode::Silent,
+            // the connection attempt fails (timed out / network unreachable / reset by a
+            // middlebox with another errno): the probe simply stays unanswered
+            _ => TcpMode::Fails(*r.pick(&[libc::ETIMEDOUT, libc::ENETUNREACH, libc::ECONNRESET])),
         },
     }
 }
